@@ -140,7 +140,7 @@ pub fn gen_assoc(r: &mut Rng) -> (MProgram, Vec<AssocGoal>) {
         r.shuffle(&mut cs);
         let n_impls = 2 + r.below(4);
         for (cn, ar) in cs.into_iter().take(n_impls) {
-            if ar > 0 && tr.nparams == 0 && r.chance(45) {
+            if ar > 0 && tr.nparams == 0 && r.chance(30) {
                 // several disjoint impls on the same constructor, one of them possibly with a repeated parameter; the
                 // declaration order is shuffled (an impl that does not apply may well come first)
                 let a = || MTy::nullary("A");
@@ -202,6 +202,80 @@ pub fn gen_assoc(r: &mut Rng) -> (MProgram, Vec<AssocGoal>) {
             p.impls.push(MImpl { nvars: ar, head: MPred::new(&tr.name, args), wheres, positive: true, assoc_vals: vec![(assoc_of(&tr.name), val)], ..Default::default() });
         }
     }
+    // non-generic impls with where-clauses on concrete types (true or false in this program)
+    for ti in 0..ntr {
+        let tr = p.traits[1 + ti].clone();
+        if tr.nparams != 0 {
+            continue;
+        }
+        for cn in ["A", "B", "C"] {
+            if r.chance(35) {
+                if let Some(im) = p.impls.iter_mut().find(|im| im.head.tr == tr.name && im.nvars == 0 && im.head.args[0] == MTy::nullary(cn)) {
+                    let other = *r.pick(&["A", "B", "C"]);
+                    im.wheres.push(MPred::new("M0", vec![MTy::nullary(other)]));
+                }
+            }
+        }
+    }
+    // associated-type bindings on closed types as extra where-clauses: their truth is fixed by the program, so an impl
+    // with a true binding stays in the model (binding printed only) and one with a false binding can never apply (it is
+    // printed but left out of the model). Each modification is re-verified on the resulting model and undone otherwise.
+    // (at most one per program: a second one could change the truth of the first)
+    for _ in 0..r.below(2) {
+        if p.impls.len() < 3 {
+            break;
+        }
+        let ii = r.below(p.impls.len());
+        let im = p.impls[ii].clone();
+        if im.head.tr == "M0" || im.extra_where.is_some() {
+            continue;
+        }
+        let tj = p.traits[1 + r.below(ntr)].clone();
+        if tj.nparams != 0 {
+            continue;
+        }
+        let subj = MTy::nullary(*r.pick(&["A", "B", "C"]));
+        if im.head.tr == tj.name {
+            continue;
+        }
+        let aname = assoc_of(&tj.name);
+        let truth = |q: &MProgram| -> Norm {
+            let mut sem = Sem::new(q, 10);
+            normalize(q, &mut sem, &[], &tj.name, &aname, &[subj.clone()], 6)
+        };
+        let want_true = r.chance(50);
+        let now = truth(&p);
+        let mut q = p.clone();
+        let rhs: MTy = match (&now, want_true) {
+            (Norm::Value(v), true) => v.clone(),
+            (Norm::Unknown, _) => continue,
+            _ => {
+                // a closed type different from the actual value (or any, when there is no value at all)
+                let cands = [MTy::nullary("A"), MTy::nullary("B"), MTy::app("Vec", vec![MTy::nullary("C")]), MTy::app("Pair", vec![MTy::nullary("A"), MTy::nullary("C")])];
+                match cands.iter().find(|c| !matches!(&now, Norm::Value(v) if v == *c)) {
+                    Some(c) => c.clone(),
+                    None => continue,
+                }
+            }
+        };
+        let binding = format!("{}: {}<{} = {}>", ty_text(&subj), tj.name, aname, ty_text(&rhs));
+        let holds_now = matches!(&now, Norm::Value(v) if *v == rhs);
+        if holds_now {
+            q.impls[ii].extra_where = Some(binding);
+        } else {
+            let mut dead = im.clone();
+            dead.extra_where = Some(binding);
+            q.extra_items.push(impl_text(&dead));
+            q.impls.remove(ii);
+        }
+        // re-verify on the modified model
+        let after = truth(&q);
+        let holds_after = matches!(&after, Norm::Value(v) if *v == rhs);
+        let decided = !matches!(after, Norm::Unknown);
+        if decided && holds_after == holds_now {
+            p = q;
+        }
+    }
     // goals
     let mut goals = vec![];
     let ground = |r: &mut Rng, depth: usize, leaves: &[MTy]| -> MTy {
@@ -227,6 +301,13 @@ pub fn gen_assoc(r: &mut Rng) -> (MProgram, Vec<AssocGoal>) {
         let mut x = ground(r, 2, &leaves);
         if with_forall && matches!(x, MTy::Ph(..)) {
             x = MTy::app("Vec", vec![x]);
+        }
+        if with_forall && r.chance(60) {
+            // the placeholder two constructors deep: the value of the outer impl then mentions a projection on a type
+            // that contains the placeholder
+            let c1 = *r.pick(&["Vec", "Bx"]);
+            let c2 = *r.pick(&["Vec", "Bx"]);
+            x = MTy::app(c1, vec![MTy::app(c2, vec![MTy::Ph(1, 0)])]);
         }
         let mut args = vec![x];
         for _ in 0..tr.nparams {
